@@ -187,6 +187,17 @@ CHECKS["C11"] = dict(
          "(accepted, outside the quantifier); operands without inactive parts; chains of <= 3 operations (thorough 4)",
     technique=Z, ref="DESIGN.md section 5 C11")
 
+CHECKS["C20"] = dict(
+    engine="Z+X", category="other",
+    text="bounded symbolic verification of the parts of C20 that do not go through C float formatting: roman(n) executed on a symbolic "
+         "integer - one z3 query proves for all 1..3999 that token values sum to n with canonical token counts; the LaTeX/Unicode/HTML "
+         "power-of-ten renderers and the significand/exponent split of _number_to_X (formatter stubbed) are confirmed by CrossHair over "
+         "all paths for every exponent -300..300 and nine significand spellings incl. '1', '1.0' and negative ones (omission rule, "
+         "exponent read back digit by digit)",
+    note="NOT claimed (not applicable): what '%.Ng' prints for a float and _float_str_w_uncert (log10/floor/round on floats, C "
+         "formatting) - no symbolic float survives '%'; unit strings come from the `quantities` package",
+    technique=Z + "; CrossHair (symbolic execution with z3) for the string renderers", ref="DESIGN.md section 5 C20")
+
 NA = {
     "C09": "property is about float conversion factors produced inside the 'quantities' package and numpy array helpers; no symbolic "
            "value survives to_unitless (float(result)), and symbolic magnitudes alone would only re-prove linearity (DESIGN.md section 6)",
